@@ -878,6 +878,9 @@ impl Inner {
             .authorize_with(&request, &self.access, &mut io)
             .await?;
 
+        #[cfg(n0_computer_iroh_verif)]
+        verif_hooks::between_admission_and_registration().await;
+
         trace!("accept: verified authorization");
 
         let io = RelayedStream {
@@ -896,6 +899,22 @@ impl Inner {
         self.clients
             .register(client_conn_builder, self.metrics.clone());
         Ok(())
+    }
+}
+
+/// Verification hooks (compiled only with `--cfg n0_computer_iroh_verif`): a pause point between the admission of a
+/// connection (access control said allow) and its registration.
+#[cfg(n0_computer_iroh_verif)]
+pub(crate) mod verif_hooks {
+    use std::sync::atomic::{AtomicU64, Ordering};
+
+    pub(crate) static PAUSE_BEFORE_REGISTRATION_MS: AtomicU64 = AtomicU64::new(0);
+
+    pub(crate) async fn between_admission_and_registration() {
+        let ms = PAUSE_BEFORE_REGISTRATION_MS.load(Ordering::SeqCst);
+        if ms > 0 {
+            tokio::time::sleep(std::time::Duration::from_millis(ms)).await;
+        }
     }
 }
 
